@@ -61,6 +61,24 @@ def scan():
     return sites, forbidden
 
 
+def model_oob_sites():
+    """fault-site numbers of unchecked accesses (`getU` / `setU`) that occur in the Lean model files"""
+    sites = {}
+    mdir = os.path.join(HERE, "..", "lean", "PQ", "Model")
+    for f in sorted(os.listdir(mdir)):
+        if not f.endswith(".lean"):
+            continue
+        src = open(os.path.join(mdir, f)).read()
+        src = re.sub(r"/-.*?-/", "", src, flags=re.S)
+        src = re.sub(r"--[^\n]*", "", src)
+        for m in re.finditer(r"\b(getU|setU)\b[^\n]*?\b(\d{3})\b\s*(?:\)|$)", src, flags=re.M):
+            sites.setdefault(int(m.group(2)), f)
+        # sites passed through helper parameters, e.g. `entryAt s i 327`
+        for m in re.finditer(r"\bentryAt\b[^\n]*?\b(\d{3})\b", src):
+            sites.setdefault(int(m.group(1)), f)
+    return sites
+
+
 def key(s):
     return "%s::%s::%s#%d" % (s["file"], s["fn"], s["kind"], s["ordinal"])
 
@@ -83,8 +101,17 @@ def main():
     cur = {key(s): s for s in sites}
     new = [cur[k] for k in cur if k not in inv]
     gone = [inv[k] for k in inv if k not in cur]
+    # the link inventory <-> model is checked, not asserted: every unchecked-access site of the model must be claimed by
+    # an inventory entry, and every site an entry names must exist in the model
+    msites = model_oob_sites()
+    claimed = set()
+    for s_ in inv.values():
+        claimed.update(s_.get("model_sites") or [])
+    unclaimed = sorted(x for x in msites if x not in claimed)
+    dangling = sorted(x for x in claimed if x not in msites)
     json.dump({"sites_in_source": len(sites), "sites_in_inventory": len(inv), "new": new, "gone": gone,
-               "forbidden": forbidden}, sys.stdout, indent=1)
+               "forbidden": forbidden, "model_oob_sites": len(msites), "model_sites_without_source_site": unclaimed,
+               "inventory_sites_missing_in_model": dangling}, sys.stdout, indent=1)
     print()
 
 
